@@ -57,6 +57,7 @@ struct Log
     std::vector<Event<T>> ev;
     int pattern = 0;
     std::size_t calls_seen = 0;
+    bool map_state_lost = false; // a densities request reached a map object that had not seen this point's coordinates request
 };
 
 template <typename T>
@@ -64,10 +65,16 @@ struct LogMap
 {
     vf::PwcFamily<T> const* fam;
     Log<T>* log;
+    // state held BY VALUE, as a caching phase-space generator would: what the last coordinates request was about
+    mutable bool have_request = false;
+    mutable std::size_t last_channel = 0;
+    mutable std::vector<T> last_rn;
 
     T operator()(std::size_t channel, std::vector<T> const& rn, std::vector<T>& coords, std::vector<std::size_t> const& enabled,
         std::vector<T>& dens, hep::multi_channel_map action) const
     {
+        if (action == hep::multi_channel_map::calculate_coordinates) { have_request = true; last_channel = channel; last_rn = rn; }
+        else if (!have_request || last_channel != channel || !vf::same_bits(last_rn, rn)) { log->map_state_lost = true; }
         Event<T> e;
         e.kind = action == hep::multi_channel_map::calculate_coordinates ? COORD : DENS;
         e.channel = channel;
@@ -279,13 +286,15 @@ void run_t(vf::Ctx& c)
         for (std::size_t i = 0; i != channels; ++i) { if (w[i] != T(0)) { expect_enabled.push_back(i); } else { ++disabled; } }
         std::vector<std::uint64_t> script = scripted ? gen_script<T>(t, calls * (fam.dims + 1), has_extreme) : std::vector<std::uint64_t>();
         LogMap<T> map{&fam, &log};
-        hep::multi_channel_integrand<T, LogFn<T>, LogMap<T>, true> igd(fn, fam.dims, map, fam.map_dims, channels, params);
+        // (with a distribution: through the make_ helper, as a user would)
+        auto igd = hep::make_multi_channel_integrand<T>(fn, fam.dims, map, fam.map_dims, channels, hep::make_dist_params<T>(4, T(0), T(1), "c17"));
         hep::multi_channel_integrand<T, LogFn<T>, LogMap<T>, false> igp(fn, fam.dims, map, fam.map_dims, channels, params);
         iterate(igd, igp, [&](auto& ig) {
             if (scripted) { vf::script_engine e(script); hep::multi_channel_iteration(ig, calls, w, e); }
             else { std::mt19937 e(seed); hep::multi_channel_iteration(ig, calls, w, e); }
         });
         c.desc << " w=" << vf::show(w) << ' ' << fam.describe();
+        VF_CHECK(c, !log.map_state_lost, "C17:map-object", "a densities request reached a map object whose last coordinates request was for another point (the map was copied in between)");
         // state machine over the log
         std::size_t pos = 0;
         bool saw_zero = false, saw_nonzero = false;
